@@ -2,6 +2,7 @@ import WebpVerif.Lemmas.EncHuff
 import WebpVerif.Lemmas.EncHuffCodes
 import WebpVerif.Lemmas.EncHuffTree
 import WebpVerif.Lemmas.EncHuffLimit
+import WebpVerif.Lemmas.EncHuffDepth
 import WebpVerif.Lemmas.CodeBits
 import WebpVerif.Lemmas.HuffTotal
 import WebpVerif.Props.C01
@@ -170,7 +171,15 @@ theorem full_when_no_limiting (freqs : List Nat) (limit : Nat) (hlim : limit ≤
       Prefix.kraft lengths.toList limit = 2 ^ limit ∧
       (∀ i, i < freqs.length → lengths[i]! ≠ 0 →
         some codes[i]! = (Prefix.canonicalCode lengths.toList i).map fun c => Prefix.reverseBits c lengths[i]!) :=
-  build_unlimited freqs limit hlim h2 h256 hmax
+  by
+    have hcnt := used_count freqs
+    obtain ⟨t, hperm, hlen⟩ := treeLengths_spec freqs (by rw [itemsOf_length, hcnt]; omega)
+    have hdepth : ∀ p ∈ depths t 0, p.2 < 256 := by
+      intro p hp
+      have := depth_lt_leaves t 0 p hp
+      rw [hperm.length_eq, hcnt] at this
+      omega
+    exact build_unlimited freqs limit hlim h2 t hperm hlen hdepth hmax
 
 -- the hypotheses are satisfiable: a concrete histogram
 example : 2 ≤ ([5, 0, 3, 1, 1].filter (· > 0)).length ∧ ([5, 0, 3, 1, 1].filter (· > 0)).length ≤ 256 ∧
@@ -200,20 +209,28 @@ theorem full_upto_256 (freqs : List Nat) (limit : Nat) (h1 : 1 ≤ limit) (h15 :
 -- the limiting case is exercised: a Fibonacci histogram at limit 3
 example : (treeLengths [1, 1, 2, 3, 5, 8, 13, 21]).foldl max 0 > 3 ∧ [1, 1, 2, 3, 5, 8, 13, 21].length ≤ 2 ^ 3 := by decide
 
-/-- The property at full strength (no bound on the number of used symbols): stated.  It is a
-    theorem up to 256 used symbols (`full_upto_256`); beyond that (only the 280+-symbol green
-    alphabet can get there) the `depth as u8` cast of the depth walk is exact only because a
-    Huffman tree over pixel counts below 2^32 is shallower than 256 - which needs the optimality
-    of the merge order (the heap really popping minima), not proved here; those histograms are
-    covered by the correspondence run. -/
-def full : Prop :=
-  ∀ (freqs : List Nat) (limit : Nat), freqs.length ≤ 2 ^ limit → limit ≤ 15 → 1 ≤ limit → freqs.sum < 2 ^ 32 →
-    2 ≤ (freqs.filter (· > 0)).length →
+/-- **The property at full strength**: for EVERY frequency vector whose frequencies sum to less
+    than 2^32 (they are pixel counts of an image of at most 2^28 pixels), any alphabet size within
+    the code space and any limit 1..15, with two or more used symbols - no bound on their number.
+    Beyond `full_upto_256` this needs the `depth as u8` cast of the depth walk to be exact, i.e. the
+    tree to be shallower than 256: std's `BinaryHeap` (transcribed: `rebuild`, `pop` =
+    `sift_down_to_bottom` + `sift_up`, the `PeekMut` replacement = `sift_down`) keeps the heap
+    order, so the merge loop always merges two items of least frequency; then every node weighs at
+    least as much as the children of its sibling, the weight grows like the Fibonacci numbers
+    along every path, and a total below 2^32 allows depth 46 at most. -/
+theorem full (freqs : List Nat) (limit : Nat) (hspace : freqs.length ≤ 2 ^ limit) (h15 : limit ≤ 15) (h1 : 1 ≤ limit)
+    (hsum : freqs.sum < 2 ^ 32) (h2 : 2 ≤ (freqs.filter (· > 0)).length) :
     ∃ lengths codes, build freqs limit = .built lengths codes ∧ lengths.size = freqs.length ∧
       (∀ i, i < freqs.length → (freqs[i]! = 0 → lengths[i]! = 0) ∧ (freqs[i]! > 0 → 1 ≤ lengths[i]! ∧ lengths[i]! ≤ limit)) ∧
       Prefix.kraft lengths.toList limit = 2 ^ limit ∧
       (∀ i, i < freqs.length → lengths[i]! ≠ 0 →
-        some codes[i]! = (Prefix.canonicalCode lengths.toList i).map fun c => Prefix.reverseBits c lengths[i]!)
+        some codes[i]! = (Prefix.canonicalCode lengths.toList i).map fun c => Prefix.reverseBits c lengths[i]!) :=
+  build_full_all freqs limit h1 h15 h2 hsum hspace
+
+/-- the heap really pops minima: `pop` returns an item of least frequency and leaves a heap -/
+theorem heap_pops_minimum (h : Heap) (a : Item) (h' : Heap) (mh : MinHeap h) (hp : pop h = some (a, h')) :
+    MinHeap h' ∧ ∀ j, j < h.size → a.freq ≤ fq h j :=
+  pop_heap h a h' mh hp
 
 -- non-vacuity and regression: concrete histograms through the model, limit reached / not reached
 example : outputOf (build [5, 0, 3, 1, 1] 15) = some ([1, 0, 2, 3, 3], [0, 0, 1, 3, 7]) := by decide
